@@ -13,9 +13,9 @@ func main() {
 	c := ev.Main(map[string]string{"C17": "fault_enumeration", "C18": "exploration"})
 	switch c.Prop {
 	case "C17":
-		checkC17(c)
+		c.Isolated(func() { checkC17(c) }) // child process: an unrecoverable crash is a violation, not a dead check
 	case "C18":
-		checkC18(c)
+		c.Isolated(func() { checkC18(c) }) // child process: an unrecoverable crash is a violation, not a dead check
 	}
 	os.Exit(c.Finish())
 }
